@@ -440,6 +440,7 @@ func finishScalar(t *rapid.T, c *ScalarCase) {
 		genAgain(t, c)
 	}
 	c.Plus = rapid.Bool().Draw(t, "plusForBlank")
+	c.Lead = rapid.SampledFrom([]string{"", "", "", "time", "time", "unexported", "plain", "all"}).Draw(t, "leadFields")
 }
 
 // genAgain: now and then our URL parameter occurs more than once.
